@@ -79,7 +79,9 @@ class AbbreviationAttribute:
         "Indicates that current attribute was repeated multiple times in a row"
 
     def copy(self):
-        return AbbreviationAttribute(self.name, self.value, self.value_type, self.boolean, self.implied, self.multiple)
+        # Copy value tokens as well: merged class values are appended in place
+        value = self.value[:] if isinstance(self.value, list) else self.value
+        return AbbreviationAttribute(self.name, value, self.value_type, self.boolean, self.implied, self.multiple)
 
 
 def convert(abbr: TokenGroup, params={}):
